@@ -211,6 +211,7 @@ func c13Stress(ctx *core.Ctx, only int) {
 		// concurrent stress
 		var wg sync.WaitGroup
 		var mism int64
+		var overlap [4]int64
 		for g := 0; g < G; g++ {
 			wg.Add(1)
 			go func(g int) {
@@ -219,6 +220,16 @@ func c13Stress(ctx *core.Ctx, only int) {
 				for round := 0; round < rounds; round++ {
 					for _, i := range gr.Perm(nIn) {
 						n := atomic.AddInt64(&inFlight, 1)
+						switch {
+						case n >= 48:
+							atomic.AddInt64(&overlap[3], 1)
+						case n >= 16:
+							atomic.AddInt64(&overlap[2], 1)
+						case n >= 4:
+							atomic.AddInt64(&overlap[1], 1)
+						default:
+							atomic.AddInt64(&overlap[0], 1)
+						}
 						for {
 							hw := atomic.LoadInt64(&highWater)
 							if n <= hw || atomic.CompareAndSwapInt64(&highWater, hw, n) {
@@ -237,6 +248,9 @@ func c13Stress(ctx *core.Ctx, only int) {
 			}(g)
 		}
 		wg.Wait()
+		for b, name := range []string{"calls_started_with_1-3_in_flight", "calls_started_with_4-15_in_flight", "calls_started_with_16-47_in_flight", "calls_started_with_48-64_in_flight"} {
+			cs.Count(name, int(atomic.LoadInt64(&overlap[b])))
+		}
 		cs.EvalN(G * rounds * nIn)
 		cs.Count("concurrent_calls", G*rounds*nIn)
 		// after the stress
